@@ -179,7 +179,7 @@ theorem adj_iff_NN (l : Lat) (h : l.WF) (i j : Nat) (hi : i < l.nsites) (hj : j 
       · exact Or.inl ⟨hi, hj, h⟩
       · exact Or.inr ⟨hi, hj, h⟩
   | ofc n0 n1 pbc =>
-    simp only [Lat.adj, Lat.NN, Lat.coord, ofcAdj_iff, List.getD_cons_zero, List.getD_cons_succ, Int.toNat_natCast]
+    simp only [Lat.adj, Lat.NN, Lat.coord, ofcAdj_iff n0 n1 pbc h, List.getD_cons_zero, List.getD_cons_succ, Int.toNat_natCast]
     exact ⟨fun h => h.2.2, fun h => ⟨hi, hj, h⟩⟩
   | brick b =>
     simp only [Lat.adj, Lat.NN, Lat.coord, Brick.adj_iff b h.1 h.2, List.getD_cons_zero, List.getD_cons_succ,
